@@ -20,6 +20,21 @@ def gen_oracle(rng, tier, reasons):
             fails.append({'solver': 'GenEOS_Solver', 'params': c['params'], 't': c['t'], 'pattern': o['type'], 'window': o['window'],
                           'integral(mass,momentum,energy)': o['integral'], 'initial_plus_t_times_flux_difference': o['expected'],
                           'normalised_defect': o['defect']})
+    # the same left / right states under two equations of state in one process: the integrals of a problem must not depend on whether a problem
+    # with the same states and ANOTHER EOS (JWL <-> ideal gas) was solved before it (a table or cache keyed on the states alone would be reused)
+    Q = {'xmin': 0.0, 'xd0': 50.0, 'xmax': 100.0, 'rl': 1.7, 'ul': round(rng.uniform(0.0, 0.3), 3), 'pl': 10.0, 'gl': 1.25,
+         'rr': 1.0, 'ur': -round(rng.uniform(0.0, 0.2), 3), 'pr': 0.5, 'gr': 1.25}
+    J = dict(Q, A=8.545, B=0.205, R1=4.6, R2=1.35, r0=1.84, e0=0.0, problem='JWL')
+    t = 12.0
+    fresh = H.run_real(RO.SCRIPT, [{'what': 'cons', 'params': Q, 't': t, 'kind': 'gen'}], timeout=3000)[0]
+    after = H.run_real(RO.SCRIPT, [{'what': 'cons', 'params': Q, 't': t, 'kind': 'gen', 'before': J}], timeout=3000)[0]
+    if 'error' not in fresh and 'error' not in after:
+        rel = max(abs(a - b) / (abs(a) + abs(b) + 1e-300) for a, b in zip(fresh['integral'], after['integral']))
+        if rel > 1e-7:
+            fails.append({'solver': 'GenEOS_Solver', 'params': Q, 't': t, 'history': 'the same states were solved with the JWL EOS first in the same process: ' + json.dumps(J),
+                          'integral_fresh_process': fresh['integral'], 'integral_after_JWL_solve': after['integral'], 'expected': fresh['expected'],
+                          'normalised_defect_fresh': fresh['defect'], 'normalised_defect_after': after['defect'],
+                          'why': 'the conserved integrals of the returned solution change by %.2e (relative) with the history of the process; at most one of the two can equal initial data + t x flux difference' % rel})
     return fails
 
 
